@@ -29,5 +29,8 @@ def run(prog, chk):
     # ... and clear() leaves no pointer to a destroyed node behind (list ends, sentinel back pointer, root, buckets)
     C.clear_resets(prog, chk, "C04.h", tuple(C.NODE))
     C.counting_against_moving_bound(prog, chk, "C04.i", tuple(C.NODE) + ("Array",))
+    # ... nor may removal pick the wrong child slot of the parent (equal keys): the destroyed node would stay linked in the tree
+    from . import c01
+    c01.parent_slot_by_identity(prog, chk, "C04.j")
     # copies re-insert into the destination's own bucket array: its size and the count used for indexing must stay in agreement
     C.bucket_index(prog, chk, "C04.i", ("HashMap", "HashSet"))
